@@ -22,67 +22,6 @@ theorem restrict_congr {A R : Field → Bool} {s₁ s₂ : Ctx} (h : AgreeOn A s
   · simp only [hr, if_true]; exact h f (hR f hr)
   · simp only [hr]; rfl
 
-/-! ## Field sets -/
-
-/-- player resources that are NULL / 0 whenever the context is not playing -/
-def IdleField : Field → Bool
-  | .p_xc_data | .s_buffer | .p_virt_virt_channels | .p_virt_virt_used => true
-  | _ => false
-
-def PrologueWrites : Field → Bool
-  | .m_mod_name | .m_mod_type | .m_mod_pat | .m_mod_trk | .m_mod_ins | .m_mod_smp | .m_mod_len | .m_mod_rst | .m_mod_gvl
-  | .m_mod_chn | .m_mod_spd | .m_mod_bpm | .m_mod_xxp | .m_mod_xxt | .m_mod_xxi | .m_mod_xxs
-  | .m_mod_xxc_pan | .m_mod_xxc_vol | .m_mod_xxc_flg | .m_mod_xxo | .m_rrate | .m_c4rate
-  | .m_volbase | .m_gvol | .m_gvolbase | .m_mvol | .m_mvolbase | .m_vol_table | .m_quirk | .m_flow_mode
-  | .m_read_event_type | .m_period_type | .m_compare_vblank | .m_comment | .m_scan_cnt | .m_midi | .m_extra
-  | .m_time_factor => true
-  | _ => false
-
-def EpilogueWrites : Field → Bool
-  | .p_pos | .p_ord | .p_row | .p_frame | .p_speed | .p_bpm | .p_gvol | .p_loop_count | .p_sequence
-  | .p_current_time | .p_frame_time | .s_ticksize | .p_filter | .p_mode | .p_flags => true
-  | _ => false
-
-/-- rewritten completely by every scan -/
-def ScanFull : Field → Bool
-  | .m_scan_cnt | .p_scan | .p_sequence_control | .m_num_sequences | .m_xxo_info_time => true
-  | _ => false
-
-/-- written by the scan only at live indices -/
-def PartialField : Field → Bool
-  | .m_xxo_info_speed | .m_xxo_info_bpm | .m_xxo_info_gvl | .m_xxo_info_st26_speed
-  | .m_seq_data_entry_point | .m_seq_data_duration => true
-  | _ => false
-
-def MixerWrites : Field → Bool
-  | .s_buffer | .s_buf32 | .s_freq | .s_format | .s_amplify | .s_mix | .s_interp | .s_dsp
-  | .s_dtright | .s_dtleft | .s_bidir_adjust | .s_ticksize => true
-  | _ => false
-
-/-- written by `xmp_start_player` after `libxmp_mixer_on` (including `libxmp_reset_flow`) -/
-def StartWrites : Field → Bool
-  | .p_master_vol | .p_smix_vol | .p_pos | .p_row | .p_loop_count | .p_sequence | .p_frame | .p_ord | .m_mod_len
-  | .p_channel_mute | .p_channel_vol
-  | .p_inject_event_note | .p_inject_event_ins | .p_inject_event_vol | .p_inject_event_fxt
-  | .p_inject_event_fxp | .p_inject_event_f2t | .p_inject_event_f2p | .p_inject_event_flag
-  | .p_flow_num_rows | .p_flow_end_point | .p_scan | .p_speed | .p_bpm | .p_gvol | .p_current_time | .p_frame_time
-  | .p_st26_speed | .p_virt_num_tracks | .p_virt_virt_channels | .p_virt_maxvoc | .p_virt_virt_used
-  | .p_virt_voice_array | .p_virt_virt_channel | .p_flow_loop | .p_xc_data
-  | .p_buffer_data_consumed | .p_buffer_data_in_size | .state
-  | .p_flow_jumpline | .p_flow_pbreak | .p_flow_loop_count | .p_flow_loop_active_num | .p_flow_delay
-  | .p_flow_rowdelay | .p_flow_rowdelay_set
-  | .p_flow_jump | .p_flow_loop_dest | .p_flow_loop_param | .p_flow_loop_start | .p_flow_jump_in_pat => true
-  | _ => false
-
-def A0 (f : Field) : Bool := Persistent f || IdleField f || f == .m_xtra
-def A1 (f : Field) : Bool := A0 f || NameField f
-def A2 (f : Field) : Bool := A1 f || PrologueWrites f
-def A4 (f : Field) : Bool := A2 f || EpilogueWrites f
-def A6 (f : Field) : Bool := A4 f || ScanFull f
-/-- agreement after a load -/
-def A7 (f : Field) : Bool := A6 f || f == .state
-def A8 (f : Field) : Bool := A7 f || MixerWrites f
-
 /-! ## Well-formed states (invariant of every reachable state) -/
 
 structure WF (s : Ctx) : Prop where
@@ -326,7 +265,170 @@ theorem live_of_dead (s : Ctx) (f : Field) (i : Nat) (h : Dead f = true) : Live 
 
 theorem startOrd_mixerOn (X : Ext) (r fm : Int) (L : Ctx) : startOrd (mixerOn X r fm L) = startOrd L := rfl
 
+theorem B_sub_A7 : ∀ f, B f = true → A7 f = true := by
+  intro f hf; cases f <;> first | rfl | exact absurd hf (by decide)
+
+theorem startReads_sub_B8 : ∀ f, StartReads f = true → B8 f = true := by
+  intro f hf; cases f <;> first | rfl | exact absurd hf (by decide)
+
+theorem mixerOn_agreeB (X : Ext) (r fm : Int) {s₁ s₂ : Ctx} (h : AgreeOn B s₁ s₂) :
+    AgreeOn B8 (mixerOn X r fm s₁) (mixerOn X r fm s₂) := by
+  intro f hf
+  cases f <;> first
+    | rfl
+    | exact h _ (by decide)
+    | exact absurd hf (by decide)
+
+/-- the state `xmp_start_player` works on: a playing context is ended first -/
+def norm (s : Ctx) : Ctx := if s .state 0 > K.XMP_STATE_LOADED then endPlayer s else s
+
+theorem startPlayer_norm (X : Ext) (r fm : Int) (s : Ctx) :
+    startPlayer X r fm s = startCore X (mixerOn X r fm (norm s)) := rfl
+
+theorem endPlayer_B (s : Ctx) (f : Field) (hf : B f = true) : endPlayer s f = s f := by
+  unfold endPlayer
+  split
+  · rfl
+  · cases f <;> first | rfl | exact absurd hf (by decide)
+
+theorem endPlayer_partial (s : Ctx) (f : Field) (hf : (PartialField f || ScanFull f) = true) : endPlayer s f = s f := by
+  unfold endPlayer
+  split
+  · rfl
+  · cases f <;> first | rfl | exact absurd hf (by decide)
+
+theorem norm_B (s : Ctx) (f : Field) (hf : B f = true) : norm s f = s f := by
+  unfold norm; split
+  · exact endPlayer_B s f hf
+  · rfl
+
+theorem norm_partial (s : Ctx) (f : Field) (hf : (PartialField f || ScanFull f) = true) : norm s f = s f := by
+  unfold norm; split
+  · exact endPlayer_partial s f hf
+  · rfl
+
+theorem startOrd_norm (s : Ctx) : startOrd (norm s) = startOrd s := by
+  have h1 : norm s .m_mod_len = s .m_mod_len := norm_B s _ (by decide)
+  have h2 : norm s .m_mod_xxo = s .m_mod_xxo := norm_B s _ (by decide)
+  have h3 : norm s .m_mod_pat = s .m_mod_pat := norm_B s _ (by decide)
+  unfold startOrd startLen
+  rw [h1, h2, h3]
+
+theorem startCore_depsB {s₁ s₂ : Ctx} (h : AgreeOn B8 s₁ s₂) :
+    startLen s₁ = startLen s₂ ∧ startOrd s₁ = startOrd s₂ ∧ virtChannels s₁ = virtChannels s₂ ∧
+    maxVoc s₁ = maxVoc s₂ ∧ muteOf s₁ = muteOf s₂ := by
+  have h1 : s₁ .m_mod_len = s₂ .m_mod_len := h _ (by decide)
+  have h2 : s₁ .m_mod_xxo = s₂ .m_mod_xxo := h _ (by decide)
+  have h3 : s₁ .m_mod_pat = s₂ .m_mod_pat := h _ (by decide)
+  have h4 : s₁ .m_mod_chn = s₂ .m_mod_chn := h _ (by decide)
+  have h5 : s₁ .smix_chn = s₂ .smix_chn := h _ (by decide)
+  have h6 : s₁ .s_numvoc = s₂ .s_numvoc := h _ (by decide)
+  have h7 : s₁ .m_quirk = s₂ .m_quirk := h _ (by decide)
+  have h8 : s₁ .m_mod_xxc_flg = s₂ .m_mod_xxc_flg := h _ (by decide)
+  have hl : startLen s₁ = startLen s₂ := by simp only [startLen, h1, h2, h3]
+  have hv : isVirtual s₁ = isVirtual s₂ := by simp only [isVirtual, h7]
+  have hc : virtChannels s₁ = virtChannels s₂ := by simp only [virtChannels, h4, h5, h6, hv]
+  refine ⟨hl, ?_, hc, ?_, ?_⟩
+  · simp only [startOrd, hl, h1, h2, h3]
+  · simp only [maxVoc, h6, hv, hc]
+  · funext i; simp only [muteOf, h4, h8]
+
 attribute [local irreducible] startOrd startLen virtChannels maxVoc muteOf
+
+theorem live_congr {L₁ L₂ : Ctx} (ht : L₁ .m_xxo_info_time = L₂ .m_xxo_info_time)
+    (hn : L₁ .m_num_sequences = L₂ .m_num_sequences) (f : Field) (i : Nat) : Live L₁ f i = Live L₂ f i := by
+  cases f <;> first
+    | rfl
+    | (simp only [Live]; rw [ht])
+    | (simp only [Live]; rw [hn])
+
+
+/-- `xmp_start_player` after the optional `xmp_end_player`: two states that agree on `B` (and on the
+live entries of the partially written arrays) are indistinguishable afterwards -/
+theorem core_agree (X : Ext) (r fm : Int) {N₁ N₂ : Ctx} (hB : AgreeOn B N₁ N₂) (hp : PartialAgree N₁ N₂)
+    (hlive : N₁ .m_xxo_info_time (startOrd N₁) ≠ -1) (hspeed : N₁ .m_xxo_info_speed (startOrd N₁) ≠ 0) :
+    ∀ f i, Live (startCore X (mixerOn X r fm N₁)) f i = true →
+      startCore X (mixerOn X r fm N₁) f i = startCore X (mixerOn X r fm N₂) f i := by
+  have h8 := mixerOn_agreeB X r fm hB
+  obtain ⟨hl, ho, hc, hm, hmu⟩ := startCore_depsB h8
+  have hr := restrict_congr h8 startReads_sub_B8
+  have ho₁ := startOrd_mixerOn X r fm N₁
+  have hlv : ∀ f, PartialField f = true → (match f with
+      | .m_xxo_info_speed | .m_xxo_info_bpm | .m_xxo_info_gvl | .m_xxo_info_st26_speed => true | _ => false) = true →
+      N₁ f (startOrd N₁) = N₂ f (startOrd N₁) := by
+    intro f hf hx
+    apply hp f _ hf
+    cases f <;> first | exact absurd hx (by decide) | (simp only [Live]; simpa using hlive)
+  have hbpm : mixerOn X r fm N₁ .m_xxo_info_bpm (startOrd (mixerOn X r fm N₂)) = mixerOn X r fm N₂ .m_xxo_info_bpm (startOrd (mixerOn X r fm N₂)) := by
+    rw [← ho, ho₁]; exact hlv _ rfl rfl
+  have hgvl : mixerOn X r fm N₁ .m_xxo_info_gvl (startOrd (mixerOn X r fm N₂)) = mixerOn X r fm N₂ .m_xxo_info_gvl (startOrd (mixerOn X r fm N₂)) := by
+    rw [← ho, ho₁]; exact hlv _ rfl rfl
+  have hst : mixerOn X r fm N₁ .m_xxo_info_st26_speed (startOrd (mixerOn X r fm N₂)) = mixerOn X r fm N₂ .m_xxo_info_st26_speed (startOrd (mixerOn X r fm N₂)) := by
+    rw [← ho, ho₁]; exact hlv _ rfl rfl
+  have hspd : mixerOn X r fm N₁ .m_xxo_info_speed (startOrd (mixerOn X r fm N₂)) = mixerOn X r fm N₂ .m_xxo_info_speed (startOrd (mixerOn X r fm N₂)) := by
+    rw [← ho, ho₁]; exact hlv _ rfl rfl
+  have htime : mixerOn X r fm N₁ .m_xxo_info_time = mixerOn X r fm N₂ .m_xxo_info_time := h8 _ (by decide)
+  have htf : mixerOn X r fm N₁ .m_time_factor = mixerOn X r fm N₂ .m_time_factor := h8 _ (by decide)
+  have hrr : mixerOn X r fm N₁ .m_rrate = mixerOn X r fm N₂ .m_rrate := h8 _ (by decide)
+  have hchn : mixerOn X r fm N₁ .m_mod_chn = mixerOn X r fm N₂ .m_mod_chn := h8 _ (by decide)
+  have hsx : mixerOn X r fm N₁ .smix_chn = mixerOn X r fm N₂ .smix_chn := h8 _ (by decide)
+  have hscan : mixerOn X r fm N₁ .p_scan = mixerOn X r fm N₂ .p_scan := h8 _ (by decide)
+  have hne₂ : mixerOn X r fm N₂ .m_xxo_info_speed (startOrd (mixerOn X r fm N₂)) ≠ 0 := by
+    rw [← hspd, ← ho, ho₁]; exact hspeed
+  have hin : startIn X (mixerOn X r fm N₁) = startIn X (mixerOn X r fm N₂) := by
+    simp only [startIn, hl, ho, hc, hm, hmu, hr, hbpm, hgvl, hst, hspd, htime, htf, hrr, hchn, hsx, hscan, if_pos hne₂]
+  intro f i hlf
+  unfold startCore at hlf ⊢
+  rw [hin] at hlf ⊢
+  have hA : B8 f = true → mixerOn X r fm N₁ f i = mixerOn X r fm N₂ f i := fun h => congrFun (h8 f h) i
+  have hP : PartialField f = true → Live N₁ f i = true → N₁ f i = N₂ f i := hp f i
+  have hD : Dead f = true → False := fun hd => by
+    rw [live_of_dead _ _ _ hd] at hlf; exact Bool.false_ne_true hlf
+  revert hA hP hD hlf
+  cases f <;> intro hlf hA hP hD <;> first
+    | rfl
+    | exact hA rfl
+    | exact (hD rfl).elim
+    | exact hP rfl hlf
+
+theorem live_core (X : Ext) (r fm : Int) (N : Ctx) (f : Field) (i : Nat) :
+    Live (startCore X (mixerOn X r fm N)) f i = Live N f i := by
+  cases f <;> rfl
+
+/-- **Restart**: `xmp_start_player` on two contexts in any state ≥ LOADED that agree on `B` yields the same view -/
+theorem restart_view_agree (X : Ext) (r fm : Int) {L P : Ctx} (hB : AgreeOn B L P) (hp : PartialAgree L P)
+    (hlive : L .m_xxo_info_time (startOrd L) ≠ -1) (hspeed : L .m_xxo_info_speed (startOrd L) ≠ 0) :
+    playerView (startPlayer X r fm L) = playerView (startPlayer X r fm P) := by
+  rw [startPlayer_norm, startPlayer_norm]
+  have hBn : AgreeOn B (norm L) (norm P) := by
+    intro f hf; rw [norm_B L f hf, norm_B P f hf]; exact hB f hf
+  have ht : norm L .m_xxo_info_time = L .m_xxo_info_time := norm_partial L _ (by decide)
+  have hn : norm L .m_num_sequences = L .m_num_sequences := norm_partial L _ (by decide)
+  have ht' : norm P .m_xxo_info_time = P .m_xxo_info_time := norm_partial P _ (by decide)
+  have hn' : norm P .m_num_sequences = P .m_num_sequences := norm_partial P _ (by decide)
+  have htLP : L .m_xxo_info_time = P .m_xxo_info_time := hB _ (by decide)
+  have hnLP : L .m_num_sequences = P .m_num_sequences := hB _ (by decide)
+  have hpn : PartialAgree (norm L) (norm P) := by
+    intro f i hf hl
+    have e₁ : norm L f = L f := norm_partial L f (by rw [hf]; rfl)
+    have e₂ : norm P f = P f := norm_partial P f (by rw [hf]; rfl)
+    rw [e₁, e₂]
+    apply hp f i hf
+    rw [← live_congr ht hn f i]; exact hl
+  have hlive' : norm L .m_xxo_info_time (startOrd (norm L)) ≠ -1 := by rw [startOrd_norm, ht]; exact hlive
+  have hspeed' : norm L .m_xxo_info_speed (startOrd (norm L)) ≠ 0 := by
+    rw [startOrd_norm, norm_partial L _ (by decide)]; exact hspeed
+  have hag := core_agree X r fm hBn hpn hlive' hspeed'
+  funext f i
+  unfold playerView
+  have hlv : Live (startCore X (mixerOn X r fm (norm L))) f i = Live (startCore X (mixerOn X r fm (norm P))) f i := by
+    rw [live_core, live_core]
+    exact live_congr (by rw [ht, ht', htLP]) (by rw [hn, hn', hnLP]) f i
+  rw [← hlv]
+  by_cases hl : Live (startCore X (mixerOn X r fm (norm L))) f i = true
+  · rw [if_pos hl, if_pos hl]; exact hag f i hl
+  · rw [if_neg hl, if_neg hl]
+
 
 theorem start_agree (X : Ext) (r fm : Int) {L₁ L₂ : Ctx} (h7 : AgreeOn A7 L₁ L₂) (hp : PartialAgree L₁ L₂)
     (hs₁ : L₁ .state 0 = K.XMP_STATE_LOADED) (hs₂ : L₂ .state 0 = K.XMP_STATE_LOADED)
@@ -379,13 +481,6 @@ theorem live_startPlayer (X : Ext) (r fm : Int) (L : Ctx) (hs : L .state 0 = K.X
     Live (startPlayer X r fm L) f i = Live L f i := by
   rw [startPlayer_loaded X r fm L hs]
   cases f <;> rfl
-
-theorem live_congr {L₁ L₂ : Ctx} (ht : L₁ .m_xxo_info_time = L₂ .m_xxo_info_time)
-    (hn : L₁ .m_num_sequences = L₂ .m_num_sequences) (f : Field) (i : Nat) : Live L₁ f i = Live L₂ f i := by
-  cases f <;> first
-    | rfl
-    | (simp only [Live]; rw [ht])
-    | (simp only [Live]; rw [hn])
 
 /-- equal player views after `xmp_start_player` on two loaded states that agree on `A7` -/
 theorem view_agree (X : Ext) (r fm : Int) {L₁ L₂ : Ctx} (h7 : AgreeOn A7 L₁ L₂) (hp : PartialAgree L₁ L₂)
